@@ -89,7 +89,7 @@ def posOK (p : String) : Bool :=
     match p.splitOn ":" with
     | ["s", col, an] =>
       !col.isEmpty && col.length < 20 && an.length ≥ 2 && an.length < 8 &&
-        ((an.take 1).toString == "a" || (an.take 1).toString == "e") && digitsOnly (an.drop 1).toString
+        ((an.take 1).toString == "a" || (an.take 1).toString == "e" || (an.take 1).toString == "l") && digitsOnly (an.drop 1).toString
     | _ => false
   else if tag == "a" || tag == "e" || tag == "m" then digitsOnly rest && p.length < 9
   else if tag == "c" then
@@ -115,7 +115,13 @@ def mutOK (s : String) (nseg : Nat) : Bool :=
       match m.splitOn "@" with
       | ["cut", p] => posOK p
       | [op, pv] =>
-        if op == "set" || op == "xor" then
+        if op == "put" then
+          -- put@<pos>=<hex>: 1..8 bytes (lower-case hex)
+          match pv.splitOn "=" with
+          | [p, v] => posOK p && v.length ≥ 2 && v.length ≤ 16 && v.length % 2 == 0 &&
+              v.all (fun ch => ch.isDigit || ('a' ≤ ch && ch ≤ 'f'))
+          | _ => false
+        else if op == "set" || op == "xor" then
           match pv.splitOn "=" with
           | [p, v] => posOK p && digitsOnly v && v.length ≤ 3 && (v.toNat?.getD 999) ≤ 255
           | _ => false
